@@ -49,12 +49,37 @@ module N =
                   | N0 -> Gt
                   | Npos m' -> Pos.compare n' m')
 
+  (** val eqb : coq_N -> coq_N -> bool **)
+
+  let eqb n m =
+    match n with
+    | N0 -> (match m with
+             | N0 -> true
+             | Npos _ -> false)
+    | Npos p -> (match m with
+                 | N0 -> false
+                 | Npos q -> Pos.eqb p q)
+
   (** val leb : coq_N -> coq_N -> bool **)
 
   let leb x y =
     match compare x y with
     | Gt -> false
     | _ -> true
+
+  (** val ltb : coq_N -> coq_N -> bool **)
+
+  let ltb x y =
+    match compare x y with
+    | Lt -> true
+    | _ -> false
+
+  (** val min : coq_N -> coq_N -> coq_N **)
+
+  let min n n' =
+    match compare n n' with
+    | Gt -> n'
+    | _ -> n
 
   (** val pos_div_eucl : positive -> coq_N -> coq_N * coq_N **)
 
@@ -75,4 +100,25 @@ module N =
          (match p with
           | Coq_xH -> ((Npos Coq_xH), N0)
           | _ -> (N0, (Npos Coq_xH))))
+
+  (** val coq_land : coq_N -> coq_N -> coq_N **)
+
+  let coq_land n m =
+    match n with
+    | N0 -> N0
+    | Npos p -> (match m with
+                 | N0 -> N0
+                 | Npos q -> Pos.coq_land p q)
+
+  (** val to_nat : coq_N -> nat **)
+
+  let to_nat = function
+  | N0 -> O
+  | Npos p -> Pos.to_nat p
+
+  (** val of_nat : nat -> coq_N **)
+
+  let of_nat = function
+  | O -> N0
+  | S n' -> Npos (Pos.of_succ_nat n')
  end
